@@ -248,6 +248,62 @@ func runC16(c *Ctx) {
 						c.verdict(key, first.Pos(), !bad, nm+" on every successful path from the zero edge", "a successful release to zero skips "+nm+": "+c.pathStr(rel, badPath))
 					}
 				}
+				// the counter entry (and, when the image has no users left, the image-level entries) are dropped on
+				// EVERY path from the zero edge, also when the layer turns out not to be registered (failed lookup)
+				for _, e := range zero {
+					first := rel.Blocks[e.from].Succs[e.succ].Instrs[0]
+					k := newCuts().addInstr(delCnt...)
+					bad := false
+					var bp []int
+					if !k.instrs[first] {
+						if got, path := reach(rel, first, isReturn, k); got != nil {
+							bad, bp = true, path
+						}
+					}
+					c.verdict("store.(*LayerManager).release:at-zero:counter-dropped-on-all-paths", first.Pos(), !bad && len(delCnt) > 0, "the use counter entry is removed on every path from the zero edge, including error returns", "an error return after reaching zero leaves the counter entry behind (stays 0, a further release drives it negative): "+c.pathStr(rel, bp))
+				}
+				var imgDel []ssa.Instruction
+				for _, a := range acc {
+					if a.fn == rel && a.op == "delete" && a.depth == 1 && a.field != "layer" {
+						imgDel = append(imgDel, a.instr)
+					}
+				}
+				emptyEdges := condEdges(rel, func(cond ssa.Value) int {
+					b, ok := cond.(*ssa.BinOp)
+					if !ok || b.Op != token.EQL {
+						return 0
+					}
+					if n, ok := constInt(b.Y); !ok || n != 0 {
+						return 0
+					}
+					if call, ok := stripConv(b.X).(*ssa.Call); ok {
+						if bi, ok := call.Call.Value.(*ssa.Builtin); ok && bi.Name() == "len" {
+							if f, d := mapFieldDepth(call.Call.Args[0], lm, maps); f == "refcounter" && d == 2 {
+								return 1
+							}
+						}
+					}
+					return 0
+				})
+				imgOK := len(imgDel) == 2 && len(emptyEdges) > 0
+				for _, d := range imgDel {
+					if okp, _ := mustPass(rel, d, newCuts().addEdges(emptyEdges)); !okp {
+						imgOK = false
+					}
+				}
+				// the emptiness test is reached on every path from the zero edge (so the image-level reset cannot be skipped by an early error return)
+				for _, e := range zero {
+					first := rel.Blocks[e.from].Succs[e.succ].Instrs[0]
+					var tests []ssa.Instruction
+					for _, ee := range emptyEdges {
+						blk := rel.Blocks[ee.from]
+						tests = append(tests, blk.Instrs[len(blk.Instrs)-1])
+					}
+					if got, _ := reach(rel, first, isReturn, newCuts().addInstr(tests...)); got != nil {
+						imgOK = false
+					}
+				}
+				c.verdict("store.(*LayerManager).release:at-zero:image-reset", rel.Pos(), imgOK, "when the image has no users left its counter map and resolve memo are dropped, on every path from the zero edge", "the image-level bookkeeping reset can be skipped (stale resolve status makes later lookups fail without resolving again)")
 				// the memo delete at depth 2 must use the layer digest of the released layer
 				for _, d := range delMemo {
 					if _, dep := mapFieldDepth(d.(*ssa.Call).Call.Args[0], lm, maps); dep == 2 {
@@ -401,6 +457,23 @@ func runC16(c *Ctx) {
 		}
 	}
 	if f := c.mustFn(pkg, "(*LayerManager).getLayer"); f != nil {
+		// a sibling layer that fails to resolve must not fail the lookup: no channel send on the failure edge of resolveLayer
+		for _, lit := range withAnon(f) {
+			for _, rc := range callsIn(lit, idIs(pkg+".(*LayerManager).resolveLayer")) {
+				fe := nonNilEdges(lit, errResults(rc)[0])
+				bad := false
+				for _, e := range fe {
+					first := lit.Blocks[e.from].Succs[e.succ].Instrs[0]
+					isSend := func(i ssa.Instruction) bool { _, ok := i.(*ssa.Send); return ok }
+					if isSend(first) {
+						bad = true
+					} else if got, _ := reach(lit, first, isSend, nil); got != nil {
+						bad = true
+					}
+				}
+				c.verdict(c.fnKey(lit)+":sibling-failure-tolerated", rc.Pos(), !bad && len(fe) > 0, "a layer that fails to resolve only ends its own goroutine", "a failing sibling layer is reported to the lookup: looking up a layer the image does contain fails when another layer cannot be resolved")
+			}
+		}
 		for _, r := range realReturns(f) {
 			for _, v := range retVals(r, 0) {
 				if isNilConst(v) {
@@ -624,9 +697,59 @@ func sameValue(a, b ssa.Value) bool {
 	pa, oka := loadOf(a)
 	pb, okb := loadOf(b)
 	if oka && okb && (pa == pb || (cellRoot(pa) != nil && cellRoot(pa) == cellRoot(pb))) {
+		// two loads of one variable denote the same value only if no store to it can execute between them
+		la, ok1 := a.(*ssa.UnOp)
+		lb, ok2 := b.(*ssa.UnOp)
+		if !ok1 || !ok2 {
+			return false
+		}
+		if la.Parent() != lb.Parent() {
+			// different functions (captured variable): same if the variable is stored exactly once overall
+			root := cellRoot(pa)
+			if root == nil {
+				return false
+			}
+			return len(storesToCell(enclosingRoot(la.Parent()), root)) <= 1
+		}
+		root := cellRoot(pa)
+		if root == nil {
+			return pa == pb && !storeBetween(la, lb, pa)
+		}
+		for _, st := range storesToCell(enclosingRoot(la.Parent()), root) {
+			if st.Parent() != la.Parent() {
+				return false // written by a nested/other function: cannot order
+			}
+			if instrBetween(la, lb, st) || instrBetween(lb, la, st) {
+				return false
+			}
+		}
 		return true
 	}
 	return false
+}
+
+// instrBetween: x can execute after a and before b.
+func instrBetween(a, b, x ssa.Instruction) bool {
+	f := a.Parent()
+	g1, _ := reach(f, a, isInstr(x), newCuts().addInstr(b))
+	if g1 == nil {
+		return false
+	}
+	g2, _ := reach(f, x, isInstr(b), nil)
+	return g2 != nil
+}
+
+func storeBetween(a, b *ssa.UnOp, addr ssa.Value) bool {
+	f := a.Parent()
+	found := false
+	eachInstr(f, func(i ssa.Instruction) {
+		if st, ok := i.(*ssa.Store); ok && st.Addr == addr {
+			if instrBetween(a, b, st) || instrBetween(b, a, st) {
+				found = true
+			}
+		}
+	})
+	return found
 }
 
 // valueSources resolves v through cells, phis and channel receives to its producing values.
